@@ -1,9 +1,10 @@
 import OQ.Exec.Proto
 import OQ.Model.Lift
 import OQ.Model.Gates
+import OQ.Model.C01
 open Lean OQ.Proto
 namespace OQ.C01.Driver
-open OQ.Lift
+open OQ.Lift OQ.C01
 
 def angOfJson (j : Json) : Except String (OQ.Ang Cyc8) := do
   match ← arrOfJson j with
@@ -22,25 +23,97 @@ def opOfJson (j : Json) : Except String (Op Cyc8) := do
     | some m => pure ⟨m, qs⟩
     | none => throw s!"unknown gate {name}"
 
+/-- a circuit operation: a gate operation as above, or {"mphase": [[ch,sh],…]} (half-angle points of the θ_k) -/
+def operOfJson (j : Json) : Except String (Oper Cyc8) := do
+  match fieldOpt j "mphase" with
+  | some pj =>
+    let angs ← listOfJson angOfJson pj
+    pure (.mphase (angs.map (fun a => a.eip OQ.Scal.cyc8)))
+  | none => pure (.gate (← opOfJson j))
+
 def optMat (o : Option (Mat Cyc8)) : Json :=
   match o with
   | none => Json.str "err"
   | some m => matToJson m
+
+def declaredOfJson (j : Json) (k : String) : Except String (Option Nat) :=
+  match fieldOpt j k with
+  | none => pure none
+  | some v => do pure (some (← natOfJson v))
+
+def circOfJson (j : Json) : Except String (Option (Circ Cyc8)) := do
+  let ops ← listOfJson operOfJson (← field j "ops")
+  pure (mkCircuit ops (← declaredOfJson j "n"))
+
+def vecOfJson (j : Json) : Except String (Mat Cyc8) := do
+  let v ← listOfJson cycOfJson j
+  pure (Mat.ofFn v.length 1 (fun i _ => v.getD i 0))
+
+/-- the checks of `Wavefunction(...)` at exact scalars: power-of-two length, Σ|a|² = 1 -/
+def validState (v : Mat Cyc8) : Bool :=
+  (log2Exact v.r).isSome &&
+    decide (sumTo v.r (fun i => Cyc8.normSq (v.get i 0)) = 1)
+
+/-- the family of native predicates used by the correspondence check:
+    {"arity": [k…], "q0": [q…], "mphase": bool, "any": bool}; a gate operation is native when its arity
+    is listed and/or (`any`) its first index is listed -/
+def nativeOfJson (j : Json) : Except String (Oper Cyc8 → Bool) := do
+  let ar ← listOfJson natOfJson (← field j "arity")
+  let q0 ← listOfJson natOfJson (← field j "q0")
+  let mp ← boolOfJson (← field j "mphase")
+  let any ← boolOfJson (← field j "any")
+  pure (fun op => match op with
+    | .mphase _ => mp
+    | .gate o =>
+      let a := ar.contains o.qs.length
+      let b := q0.contains (o.qs.headD 0)
+      if any then a || b else a && b)
+
+def circToJson (c : Option (Circ Cyc8)) : Json :=
+  match c with
+  | none => Json.str "err"
+  | some c => Json.mkObj [("n", Json.num (JsonNumber.fromNat c.n)),
+                          ("len", Json.num (JsonNumber.fromNat c.ops.length)),
+                          ("unitary", optMat (toUnitary c))]
 
 def handle (op : String) (j : Json) : Except String Json := do
   match op with
   | "lift" =>
     let o ← opOfJson j
     let n ← natOfJson (← field j "n")
-    pure (optMat (liftMatrix o.m o.qs n))
-  | "unitary" =>
-    let ops ← listOfJson opOfJson (← field j "ops")
-    let n ← natOfJson (← field j "n")
-    pure (optMat (toUnitary n ops))
+    pure (optMat (gateLift o n))
+  | "circuit" =>
+    -- Circuit(ops, n_qubits) → width, length, to_unitary()
+    pure (circToJson (← circOfJson j))
   | "apply_all" =>
-    let ops ← listOfJson opOfJson (← field j "ops")
-    let v ← listOfJson cycOfJson (← field j "v")
-    pure (optMat (applyAll ops (Mat.ofLists (v.map (fun x => [x])))))
+    let ops ← listOfJson operOfJson (← field j "ops")
+    let v ← vecOfJson (← field j "v")
+    pure (optMat (applyAll ops v))
+  | "wavefunction" =>
+    -- {"n", "ops", "v": vector or null, "native": predicate or null (= SymbolicSimulator)}
+    let init ← match fieldOpt j "v" with
+      | none => pure none
+      | some vj => do pure (some (← vecOfJson vj))
+    match ← circOfJson j with
+    | none => pure (Json.str "err")
+    | some c =>
+      match fieldOpt j "native" with
+      | none => pure (optMat (symbolicWavefunction validState c init))
+      | some nj =>
+        let p ← nativeOfJson nj
+        pure (Json.mkObj [
+          ("state", optMat (getWavefunction p (fun sub st => applyAll sub.ops st) validState c init)),
+          ("segments", Json.arr ((splitCircuit c p).map (fun s =>
+              Json.arr #[Json.bool s.1, Json.num (JsonNumber.fromNat s.2.ops.length),
+                         Json.num (JsonNumber.fromNat s.2.n)])).toArray)])
+  | "add_circuit" =>
+    match ← circOfJson (← field j "a"), ← circOfJson (← field j "b") with
+    | some a, some b => pure (circToJson (addCirc a b))
+    | _, _ => pure (Json.str "err")
+  | "add_op" =>
+    match ← circOfJson (← field j "a") with
+    | some a => pure (circToJson (addOp a (← operOfJson (← field j "op"))))
+    | none => pure (Json.str "err")
   | "gate" =>
     let name ← strOfJson (← field j "gate")
     let angs ← listOfJson angOfJson (← field j "angles")
